@@ -409,3 +409,77 @@ def complete(ls, out_edges, kinds, alpha, S, has_lbrace, require_no_lbrace):
                             q.append((b, suf + ch))
                         break
     return None
+
+
+def ambiguous_star(pattern):
+    """Does the regex contain (A1|A2|...)* (unbounded) in which a multi-character alternative can also be read as a
+    sequence of single-character alternatives?  Then one input has exponentially many parses and a backtracking
+    engine (Python's re) takes exponential time on a non-matching line.  Returns a description or None."""
+    import re._parser as rp
+    alphabet = [chr(c) for c in range(0, 128)] + ["é", " "]
+
+    def cls(item):
+        op, av = item
+        if op == rp.LITERAL:
+            return {chr(av)} & set(alphabet) or {chr(av)}
+        if op == rp.NOT_LITERAL:
+            return {c for c in alphabet if c != chr(av)}
+        if op == rp.ANY:
+            return {c for c in alphabet if c != "\n"}
+        if op == rp.IN:
+            import re as _re
+            neg = any(x[0] == rp.NEGATE for x in av)
+            s = set()
+            for x in av:
+                if x[0] == rp.LITERAL:
+                    s.add(chr(x[1]))
+                elif x[0] == rp.RANGE:
+                    s.update(chr(c) for c in range(x[1][0], min(x[1][1], 0x2030) + 1))
+                elif x[0] == rp.CATEGORY:
+                    name = str(x[1])
+                    pat = {"CATEGORY_DIGIT": r"\d", "CATEGORY_NOT_DIGIT": r"\D", "CATEGORY_SPACE": r"\s", "CATEGORY_NOT_SPACE": r"\S",
+                           "CATEGORY_WORD": r"\w", "CATEGORY_NOT_WORD": r"\W"}.get(name)
+                    if pat is None:
+                        return None
+                    s.update(c for c in alphabet if _re.fullmatch(pat, c))
+            return {c for c in alphabet if c not in s} if neg else s
+        return None
+
+    def walk(tree):
+        for op, av in tree:
+            if op in (rp.MAX_REPEAT, rp.MIN_REPEAT):
+                lo, hi, body = av
+                if hi == rp.MAXREPEAT or hi > 64:
+                    items = list(body)
+                    if len(items) == 1 and items[0][0] == rp.SUBPATTERN:
+                        items = list(items[0][1][3])
+                    if len(items) == 1 and items[0][0] == rp.BRANCH:
+                        alts = [list(a) for a in items[0][1][1]]
+                        classes = []
+                        for a in alts:
+                            cs = [cls(x) for x in a]
+                            classes.append(None if any(c is None for c in cs) else cs)
+                        singles = [cs[0] for cs in classes if cs is not None and len(cs) == 1]
+                        for cs in classes:
+                            if cs is None or len(cs) < 2:
+                                continue
+                            if all(any(c & s for s in singles) for c in cs):
+                                return "an alternative of %d characters under '*' can also be matched character by character by the " \
+                                       "single-character alternative(s)" % len(cs)
+                r = walk(body)
+                if r:
+                    return r
+            elif op == rp.SUBPATTERN:
+                r = walk(av[3])
+                if r:
+                    return r
+            elif op == rp.BRANCH:
+                for b in av[1]:
+                    r = walk(b)
+                    if r:
+                        return r
+        return None
+    try:
+        return walk(rp.parse(pattern))
+    except Exception:
+        return None
